@@ -689,7 +689,7 @@ Proof.
     set (l := map Z.of_nat (seq 0 (length (b_sets b)))).
     assert (Hl : length l = length (b_sets b)) by (subst l; rewrite map_length, seq_length; reflexivity).
     destruct (length l) as [|f] eqn:El; cbn [chunks]; [reflexivity|].
-    rewrite El. replace (S f <=? Z.to_nat 65535)%nat with true by lia. reflexivity. }
+    rewrite El. replace (S f <=? Z.to_nat MAX_ITEMS)%nat with true by (unfold MAX_ITEMS; lia). reflexivity. }
   rewrite Hs. cbn [map]. intros H.
   destruct (map_opt _ _) as [subs'|]; [|discriminate]. injection H as <-. cbn [all_keys snd]. rewrite app_nil_r. reflexivity.
 Qed.
